@@ -375,6 +375,15 @@ class VtsHarness:
                 en1 = z3.BoolVal(en1) if isinstance(en1, bool) else en1
                 e0 = z3.BoolVal(enabled0) if isinstance(enabled0, bool) else enabled0
                 self.rec(ctx, uid + "/ends-disabled-unless-already-running", z3.Or(e0, z3.Not(en1)))
+        if mname in ("start", "advance_to", "advance_by") and raised is None:
+            # re-entrancy: an action may call start / advance_to / advance_by on the scheduler that is running it; the run in progress goes on
+            # as if the call had not been made - still enabled, clock and queue untouched, nothing run by the nested call
+            en1 = it.truth_term(o.fields["_is_enabled"])
+            en1 = z3.BoolVal(en1) if isinstance(en1, bool) else en1
+            e0 = z3.BoolVal(enabled0) if isinstance(enabled0, bool) else enabled0
+            self.rec(ctx, uid + "/a-call-made-while-a-run-is-in-progress-changes-nothing",
+                     z3.Implies(e0, z3.And(en1, clock1 == clock0, z3.BoolVal(not acts), self.q.attrs["view"] == view0)),
+                     detail="the nested call returned with the running flag cleared / the clock moved / an action run / the queue changed: the run in progress ends early or skips work")
         if mname == "advance_to":
             t = it.to_int(args[0])
             if raised is not None:
